@@ -238,7 +238,7 @@ def work_dea_long(chunk, length=60):
 # ---------------------------------------------------------------------------------------------
 # EpsAlg against the exact table
 
-def epsalg_check(terms_float, value, table, table_in):
+def epsalg_check(terms_float, value, table, table_in, unit=1.0):
     """value returned after the last term vs exact highest even entry.  Returns (status, text, ratio)"""
     v, e = table.highest_even()
     if v is None:
@@ -247,7 +247,7 @@ def epsalg_check(terms_float, value, table, table_in):
     err = abs(value - float(v))
     if not math.isfinite(allow):
         return 'undefined', '', 0.0
-    scale = max(1.0, abs(float(v)))
+    scale = max(unit, abs(float(v)))
     nontrivial = allow < 1e-3 * scale
     if not err <= allow:
         return 'bad', ('after %d terms EpsAlg returned %r, exact table entry eps_%d^(%d) = %r (allowance %.3g)'
@@ -261,15 +261,16 @@ def work_epsalg_model(chunk):
     from numdifftools.extrapolation import EpsAlg, Dea
     acc = fw.Acc()
     ntrans = 0
-    for L, qs, coefs in chunk:
+    for L, qs, coefs, sexp in chunk:
         k = len(qs)
+        unit = 2.0 ** sexp          # the whole sequence is multiplied by an exact power of two
         ea = EpsAlg()
         table = eo.Table(0)
         table_in = eo.Table(EPS)
         terms = []
         deas = {lim: Dea(limexp=lim) for lim in (3, 5, 7, 9)}
         for n in range(2 * k + 1):
-            exact = Fraction(L) + sum(Fraction(a) * Fraction(q) ** n for a, q in zip(coefs, qs))
+            exact = (Fraction(L) + sum(Fraction(a) * Fraction(q) ** n for a, q in zip(coefs, qs))) * Fraction(2) ** sexp
             t = float(exact)
             terms.append(t)
             table.push(Fraction(t))
@@ -278,44 +279,45 @@ def work_epsalg_model(chunk):
                 val = ea(t)
             except Exception as e:
                 acc.violation('C14:EpsAlg:raised-%s' % type(e).__name__,
-                              dict(kind='epsalg-model', L=L, qs=list(qs), coefs=list(coefs), n=n), str(e))
+                              dict(kind='epsalg-model', L=L, qs=list(qs), coefs=list(coefs), n=n, sexp=sexp), str(e))
                 break
             ntrans += 1
-            status, text, ratio = epsalg_check(terms, val, table, table_in)
-            case = ('epsalg-model', L, qs, coefs, n)
+            status, text, ratio = epsalg_check(terms, val, table, table_in, unit)
+            case = ('epsalg-model', L, qs, coefs, n, sexp)
             acc.case(case, nontrivial=(status == 'ok'), cell=['epsalg/transients=%d' % k, 'epsalg/len=%d' % (n + 1)],
                      outcome=status)
             if status == 'ok':
                 acc.maxi('epsalg_worst_ratio_in_allowance_units', ratio)
             if status == 'bad':
                 acc.violation('C14:EpsAlg:table-mismatch:len%%2=%d' % ((n + 1) % 2),
-                              dict(kind='epsalg-model', L=L, qs=list(qs), coefs=list(coefs), n=n), text, rank=n)
+                              dict(kind='epsalg-model', L=L, qs=list(qs), coefs=list(coefs), n=n, sexp=sexp), text, rank=n)
                 break
             if n == 2 * k:
                 v, e = table_in.highest_even()
                 if v is not None:
-                    allow = 10 * float(e) + 4 * EPS * abs(L)
-                    if allow < 1e-3 * max(1.0, abs(L)) and not abs(val - L) <= allow:
+                    Ls = L * unit
+                    allow = 10 * float(e) + 4 * EPS * abs(Ls)
+                    if allow < 1e-3 * max(unit, abs(Ls)) and not abs(val - Ls) <= allow:
                         acc.violation('C14:EpsAlg:limit-not-recovered', dict(kind='epsalg-model', L=L, qs=list(qs),
-                                                                             coefs=list(coefs), n=n),
+                                                                             coefs=list(coefs), n=n, sexp=sexp),
                                       'k=%d transients, %d terms: EpsAlg %r, limit %r (allowance %.3g)'
-                                      % (k, n + 1, val, L, allow), rank=n)
+                                      % (k, n + 1, val, Ls, allow), rank=n)
             # Dea on the same prefix: its result is one of the even entries of the newest anti-diagonal
             for lim, dea in deas.items():
                 try:
                     r, ab = dea(t)
                 except Exception as e:
                     acc.violation('C14:Dea:raised-%s:model-sequence' % type(e).__name__,
-                                  dict(kind='epsalg-model', L=L, qs=list(qs), coefs=list(coefs), n=n, limexp=lim), str(e))
+                                  dict(kind='epsalg-model', L=L, qs=list(qs), coefs=list(coefs), n=n, limexp=lim, sexp=sexp), str(e))
                     continue
                 ntrans += 1
                 if n + 1 <= lim and n >= 2 and table.min_rel_delta is not None and table.min_rel_delta > 1e-3:
                     cands = table.even_antidiagonal()
                     ok = any(abs(r - float(v)) <= 10 * float(e) + 16 * EPS * abs(float(v)) for _, v, e in cands)
-                    acc.case(('dea-model', lim, L, qs, coefs, n), nontrivial=True, cell='dea/agrees-with-table', outcome=ok)
+                    acc.case(('dea-model', lim, L, qs, coefs, n, sexp), nontrivial=True, cell='dea/agrees-with-table', outcome=ok)
                     if not ok:
                         acc.violation('C14:Dea:not-a-table-entry', dict(kind='epsalg-model', L=L, qs=list(qs),
-                                                                        coefs=list(coefs), n=n, limexp=lim),
+                                                                        coefs=list(coefs), n=n, limexp=lim, sexp=sexp),
                                       'Dea(limexp=%d) after %d terms returned %r; even entries of the newest '
                                       'anti-diagonal: %r' % (lim, n + 1, r, [float(v) for _, v, _ in cands]), rank=n)
     acc.count('epsalg_transitions', ntrans)
@@ -392,13 +394,17 @@ AS = [1.0, 0.3, -2.0]
 LS = [1.0, 0.0, -3.7]
 
 
+SCALE_EXPONENTS = [0, -70, 70]     # sequences are also fed multiplied by 2**-70 and 2**70 (exact scaling)
+
+
 def model_sequences():
     out = []
     for k in (1, 2, 3, 4):
         for qs in itertools.combinations(QS, k):
             for coefs in itertools.product(AS, repeat=k):
                 for L in LS:
-                    out.append((L, qs, coefs))
+                    for sexp in SCALE_EXPONENTS:
+                        out.append((L, qs, coefs, sexp))
     return out
 
 
@@ -478,7 +484,7 @@ def replay(case):
         bad = [r['detail'] for k, (n, recs) in a.viol.items() for r in recs]
         return not bad, 'dea-long %r -> %r' % (case, bad or 'ok')
     if kind == 'epsalg-model':
-        a = work_epsalg_model([(case['L'], tuple(case['qs']), tuple(case['coefs']))])
+        a = work_epsalg_model([(case['L'], tuple(case['qs']), tuple(case['coefs']), case.get('sexp', 0))])
     else:
         syms = case['syms']
         a = work_epsalg_tree([tuple(syms[:2])], depth=len(syms))
